@@ -355,7 +355,15 @@ func (x *Executor) mergeStates(ins []incoming) *State {
 	// defers: must agree
 	out.defers = append([]deferred{}, ins[0].st.defers...)
 	for _, in := range ins[1:] {
-		if len(in.st.defers) != len(out.defers) {
+		same := len(in.st.defers) == len(out.defers)
+		if same {
+			for i := range in.st.defers {
+				if in.st.defers[i].instr != out.defers[i].instr || in.st.defers[i].cond != out.defers[i].cond {
+					same = false
+				}
+			}
+		}
+		if !same {
 			// conditional registration: mark by condition
 			out.defers = mergeDefers(x, ins)
 			break
@@ -365,38 +373,48 @@ func (x *Executor) mergeStates(ins []incoming) *State {
 }
 
 func mergeDefers(x *Executor, ins []incoming) []deferred {
-	// find the longest list; entries missing on other paths get the path condition as cond.
-	// Supported shape: lists are prefixes of one another.
-	longest := 0
-	for i, in := range ins {
-		if len(in.st.defers) > len(ins[longest].st.defers) {
-			longest = i
-		}
+	// entries are identified by (defer instruction, frame); an entry registered only on some paths
+	// gets the disjunction of those paths' conditions as its registration condition
+	type key struct {
+		in ssa.Instruction
+		fr int
 	}
-	base := ins[longest].st.defers
-	out := make([]deferred, len(base))
-	copy(out, base)
-	for j := range out {
-		var conds []string
-		for _, in := range ins {
-			if j < len(in.st.defers) {
-				if in.st.defers[j].instr != base[j].instr {
-					x.u.unsupported("defer lists differ at join")
-					return out
-				}
-				c := in.st.defers[j].cond
-				if c == "true" {
-					conds = append(conds, in.cond)
-				} else {
-					conds = append(conds, "(and "+in.cond+" "+c+")")
-				}
+	var order []key
+	byKey := map[key]deferred{}
+	conds := map[key][]string{}
+	count := map[key]int{}
+	for _, in := range ins {
+		seen := map[key]bool{}
+		for _, d := range in.st.defers {
+			k := key{d.instr, d.frame}
+			if seen[k] {
+				x.u.unsupported("the same defer statement registered twice on one path (defer in a loop)")
+				continue
+			}
+			seen[k] = true
+			if _, ok := byKey[k]; !ok {
+				byKey[k] = d
+				order = append(order, k)
+			}
+			c := in.cond
+			if d.cond != "true" {
+				c = "(and " + in.cond + " " + d.cond + ")"
+			}
+			conds[k] = append(conds[k], c)
+			if d.cond == "true" {
+				count[k]++
 			}
 		}
-		if len(conds) == len(ins) && allTrue(ins, j) {
-			out[j].cond = "true"
+	}
+	var out []deferred
+	for _, k := range order {
+		d := byKey[k]
+		if count[k] == len(ins) {
+			d.cond = "true"
 		} else {
-			out[j].cond = x.u.define("defcond", "Bool", "(or "+strings.Join(conds, " ")+")")
+			d.cond = x.u.define("defcond", "Bool", "(or "+strings.Join(conds[k], " ")+" false)")
 		}
+		out = append(out, d)
 	}
 	return out
 }
